@@ -210,6 +210,12 @@ def to_scenario(sid, steps, rng, mode="replay", fresh=False):
     sc["similarsids"] = rng.random() < 0.4
     # offers and answers with control characters, markup and runes outside the BMP (carried unchanged)
     sc["oddtext"] = rng.random() < 0.35
+    # peers that hang up while their response is being written (the response writer fails after n bytes):
+    # everything else about the request, and every later request, is unaffected
+    if rng.random() < 0.2:
+        names_ = sorted(via) + [p for p in sorted(addr) if rng.random() < 0.3]
+        if names_:
+            sc["abort"] = {n: rng.choice([0, 1, 17, 200, 700, 1500]) for n in rng.sample(names_, min(len(names_), rng.choice([1, 1, 2])))}
     # extreme self-reported counts: an order-preserving concretisation of the step's numbers
     if rng.random() < 0.3:
         loads = sorted(set(it[3] for st in steps for it in (st[1] if st[0] == "Wave" else [st]) if it[0] == "ProxyRegister"))
@@ -316,6 +322,7 @@ def sameoffer_part(chk, owner, n, seed):
                     it[2], it[3] = nat, "default"
         h["via"] = {c: via for c in h["via"]}
         h["sameoffers"], h["oddtext"], h["rollover"], h["fresh"] = True, False, False, True
+        h.pop("abort", None)      # a response that is not observed cannot be counted
         h["bridges"] = ["default", "b2"]
     by_sc, _ = run_rig(chk, herds, shards=min(4, max(1, n // 6)), tag="same", fresh_each=True)
     reduced = {}
